@@ -1,4 +1,5 @@
 import ServiceModel.Proofs.Reachable
+import ServiceModel.Proofs.Stable
 /-!
 # C15 — Definitions and bindings are unique, stable and consistently indexed
 -/
@@ -49,5 +50,20 @@ theorem stored_terms_match_text (hc : CfgOK cfg p) {s : State} (hr : Reachable c
 
 theorem terms_only_for_bindings (hc : CfgOK cfg p) {s : State} (hr : Reachable cfg p h0 t0 s) (k : SvcName × Addr)
     (h : (Map.get s.pricing k).isSome) : (Map.get s.bindings k).isSome := (reachable_inv hc hr).b.pricingOnly k h
+
+/-! ### stability over histories (no hypothesis on the state or on the operations) -/
+/-- A service definition, once created, never changes or disappears: after any sequence of operations the very
+    same record is stored. -/
+theorem definition_never_changes (s : State) (ops : List Op) (n : SvcName) (d : Definition)
+    (h : Map.get s.defs n = some d) : Map.get (after s ops).defs n = some d := (stable_after ops s).defs n d h
+
+/-- A binding never disappears and keeps its service, provider (its key) and owner for ever. -/
+theorem binding_identity_never_changes (s : State) (ops : List Op) (k : SvcName × Addr) (b : Binding)
+    (h : Map.get s.bindings k = some b) : ∃ b', Map.get (after s ops).bindings k = some b' ∧ b'.owner = b.owner :=
+  (stable_after ops s).bind k b h
+
+/-- A provider has one owner for life. -/
+theorem provider_owner_for_life (s : State) (ops : List Op) (pv o : Addr) (h : Map.get s.owner pv = some o) :
+    Map.get (after s ops).owner pv = some o := (stable_after ops s).owner pv o h
 
 end SM.C15
